@@ -117,6 +117,9 @@ def layers(tier, seed):
     ws.append(dict(refs=[tr, refs[0]], queries=[e2e.worlds.as_map(e2e.QIDS[j], e2e.worlds.window_query(tr, st, 14, rv)[0][2])
                                                 for j, (st, rv) in enumerate(((19, False), (24, True), (30, False), (4, False)))],
                    desc=['tandem-repeat reference'] * 4))
+    # tight references (one flanking label on either side of the molecule cut from them): a strand's correlation often has no peak
+    from mc.props import c16
+    ws += [w for w in c16.seed_layer(tier, seed).worlds if w.get('planted')][:6 if tier == 'quick' else None]
     extras = tuple(('-p', str(p)) for p in (1, 2, 3, 5))
     return [e2e.WorldLayer('worlds', ws, judge, extras=extras, extensions=[sink.Candidates, sink.Seeds],
                            bounds=dict(worlds=len(ws), peaksCount=[1, 2, 3, 5], modes=list(e2e.MODES), queries_per_world=[3, 5], references=[1, 3]),
